@@ -49,6 +49,9 @@ func c09(c *Ctx) {
 	}
 	r.Floor("decoded fields checked by RESET.R1", nReset, 20)
 	r.Floor("carried-state fields checked by OWN.O1", nOwn, 2)
+	if k := capFlowRule(c, entries); k == 0 {
+		r.Infof("STRUCT.capflow: no depacketizer looks at the capacity of a buffer")
+	}
 	// deprecated AV1 path
 	if f := p.Method("codecs", "AV1Packet", "Unmarshal"); f != nil {
 		entries = append(entries, f)
